@@ -22,6 +22,14 @@ Next == /\ l <= Len(Trace)
            CASE e.ev = "decode" ->
                   /\ IF Fidelity(e) THEN TRUE ELSE PrintT(<<"REJ", l, "C06", DevDecode(e)>>)
                   /\ IF DecodeRobust(e.r) THEN TRUE ELSE PrintT(<<"REJ", l, "C05", DevDecode(e)>>)
+             [] e.ev = "rt" -> IF RoundTripOK(e) THEN TRUE ELSE PrintT(<<"REJ", l, "C01", "NONE">>)
+             [] e.ev = "feed" -> IF FeedOK(e) THEN TRUE
+                                 ELSE PrintT(<<"REJ", l, "C05", IF Dev_BytesDecodeErrorPanics(e) THEN "Dev_BytesDecodeErrorPanics"
+                                                                ELSE IF Dev_UnknownTypeAccepted(e) THEN "Dev_UnknownTypeAccepted"
+                                                                ELSE IF Dev_IdentifiersNullElementPanics(e) THEN "Dev_IdentifiersNullElementPanics" ELSE "NONE">>)
+             [] e.ev = "payload" ->
+                  /\ IF PartialOK(e) THEN TRUE ELSE PrintT(<<"REJ", l, "C13", "NONE">>)
+                  /\ IF PayloadOK(e) THEN TRUE ELSE PrintT(<<"REJ", l, "C06", IF Dev_LinkageTypeIgnored(e) THEN "Dev_LinkageTypeIgnored" ELSE "NONE">>)
              [] OTHER -> PrintT(<<"REJ", l, "C06", "unknown-event">>)
 Spec == Init /\ [][Next]_l
 AllConsumed == TLCGet("stats").diameter - 1 = Len(Trace)
